@@ -304,7 +304,14 @@ def main():
         'notes': 'exit 0 = held on everything explored, 1 = VIOLATION line with replay file, '
                  '2 = HARNESS-ERROR (machinery problem, never a verdict). VERIF_SEED selects the '
                  'seed block; VERIF_TIER or --tier the depth. known_findings.json is read-only '
-                 'at run time.',
+                 'at run time. Besides the per-property schedules and faults, every check shares '
+                 'these history dimensions (DESIGN.md 10.2, 10.9, 10.10): second simulator / '
+                 'generator instances on the same objects, designs used (simulated, exported, '
+                 'analysed, copied) when half built and then extended on the same Block, and the '
+                 'worlds a worker process ran earlier (stored as `preceding` in a replay file when '
+                 'the failing world alone does not fail in a fresh interpreter). An exception '
+                 'raised inside pyrtl/ by a legal call is a VIOLATION (legal_call), never a '
+                 'harness error.',
     }
     path = os.path.join(HERE, 'MANIFEST.json')
     with open(path, 'w') as f:
